@@ -329,6 +329,33 @@ func (c *VC) ghostBuiltin(st *State, name string, call *ast.CallExpr) []*Term {
 		blo := c.binop(token.ADD, mkField(b, "sl_off"), mkField(b, "sl_len"), it)
 		bhi := c.binop(token.ADD, mkField(b, "sl_off"), mkField(b, "sl_cap"), it)
 		return []*Term{mkOr(mkNot(mkEq(mkField(v, "sl_base"), mkField(b, "sl_base"))), c.cmp(token.LEQ, vhi, blo, it), c.cmp(token.LEQ, bhi, vlo, it), mkEq(mkField(v, "sl_len"), c.idxLit(0)))}
+	case "unchangedElems":
+		// the elements s[0:len(s)] hold the values they held on entry (in a postcondition: old state)
+		sv := c.eval(st, call.Args[0])
+		sl, ok := c.typeOf(call.Args[0]).Underlying().(*types.Slice)
+		if !ok {
+			c.unsupportedf(call.Pos(), "unchangedElems on non-slice")
+			return []*Term{c.fresh("ghost", sortBool)}
+		}
+		var oldSt *State
+		if run != nil && run.old != nil {
+			oldSt = run.old
+		} else if c.entry != nil {
+			oldSt = c.entry
+		}
+		if oldSt == nil {
+			return []*Term{tTrue}
+		}
+		_, hNow := c.sliceHeap(st, sl.Elem())
+		_, hOld := c.sliceHeap(oldSt, sl.Elem())
+		rowNow, rowOld := c.sel(hNow, mkField(sv, "sl_base")), c.sel(hOld, mkField(sv, "sl_base"))
+		j := c.boundVar("j", c.idxSort())
+		if c.mode == ModeInt {
+			c.varBounds[j.Op] = interval{bigInt(0), new(big.Int).Mul(pow2(maxLenBits), bigInt(2))}
+		}
+		off, ln := mkField(sv, "sl_off"), mkField(sv, "sl_len")
+		rng := mkAnd(c.cmp(token.LEQ, off, j, it), c.cmp(token.LSS, j, c.binop(token.ADD, off, ln, it), it))
+		return []*Term{mkForall([]*Term{j}, mkImplies(rng, mkEq(mkSelect(rowNow, j), mkSelect(rowOld, j))), mkSelect(rowNow, j))}
 	case "identical":
 		// the two values are the same value of the model (for strings: same snapshot, which
 		// implies equal content; used where an uninterpreted spec function must be congruent)
